@@ -9,11 +9,12 @@
      plug c u         tree with subtree u in the one-hole context c; |cpre c| = prefix index of u's root
      theight, node_depths, leaf_depths     recursive height / depths
      pset_ok sub ps   what PrimitiveSetTyped._add establishes for pset.primitives / pset.terminals
-                      (theorem C11_add_establishes_pset_ok in Props/C11_pset.v)
+                      (theorem C11_add_establishes_pset_ok below)
    Every operator result is quantified over ALL draw lists `ds`: the model rejects draws outside the
    ranges `random` guarantees, so `... ds = Ok (out, ds')` ranges exactly over the possible runs. *)
 From Coq Require Import List ZArith NArith Bool.
-From DV Require Import Model.C11_GPTree Proofs.C11_Tree Proofs.C11_Gen Proofs.C11_Ops Proofs.C11_Cx Proofs.C11_Main.
+From DV Require Import Model.C11_GPTree Model.C11_PSet Proofs.C11_Tree Proofs.C11_Gen Proofs.C11_Ops Proofs.C11_Cx
+  Proofs.C11_PSet Proofs.C11_Main.
 Import ListNotations.
 Local Open Scope Z_scope.
 
@@ -148,6 +149,26 @@ Theorem C11_static_limit_closed : forall (P : list node -> Prop) k maxv op input
   static_limit k maxv op inputs ds = Ok (res, ds') -> Forall P res.
 Proof. exact static_limit_closed. Qed.
 Print Assumptions C11_static_limit_closed.
+
+(* ---- the primitive-set tables: pset_ok is what `_add` establishes ---- *)
+(* ops = the sequence of _add calls (is-Primitive flag, node); primitives have arity >= 1, terminals 0 *)
+Theorem C11_add_establishes_pset_ok : forall sub,
+  (forall a b c, sub a b = true -> sub b c = true -> sub a c = true) ->
+  forall ops r rn rd, Forall op_ok ops ->
+  let s := build sub ops in pset_ok sub (mkpset (s_prims s) (s_terms s) r rn rd).
+Proof. exact build_pset_ok. Qed.
+Print Assumptions C11_add_establishes_pset_ok.
+
+(* and the pools are complete: every node added so far that returns a subtype of a registered type
+   is listed there (so a node is always a candidate for replacing itself) *)
+Theorem C11_add_tables_complete : forall sub, (forall a, sub a a = true) ->
+  forall ops, let s := build sub ops in
+  (forall t p, In (true, p) ops -> has_key (s_prims s) t = true -> sub (nret p) t = true ->
+               In p (lookup (s_prims s) t)) /\
+  (forall t p, In (false, p) ops -> has_key (s_terms s) t = true -> sub (nret p) t = true ->
+               In p (lookup (s_terms s) t)).
+Proof. exact build_complete. Qed.
+Print Assumptions C11_add_tables_complete.
 
 (* ---- non-vacuity: a typed set with a subclass, a generated tree, an operator run ---- *)
 Definition ex_sub (a b : ty) : bool := (N.eqb a b || N.eqb b 0 || (N.eqb a 2 && N.eqb b 1))%N.   (* 2 <: 1 <: object *)
